@@ -52,4 +52,4 @@ where
 
 #[cfg(kani)]
 #[path = "/verif/hooks/core/scr.rs"]
-mod verif_hooks;
+pub(crate) mod verif_hooks;
